@@ -13,7 +13,7 @@ def sh(*a, **k):
 def run_checks(wt, props, tier):
     keys = {}
     for p in props:
-        env = dict(os.environ, LPV_REPO=wt, VERIF_TIER=tier)
+        env = dict(os.environ, LPV_REPO=wt, VERIF_TIER=tier, LPV_EVIDENCE_DIR="/tmp/wt/mut-evidence")
         r = sh(os.path.join(VERIF, "check"), p, "--tier", tier, env=env, cwd=VERIF)
         ks = set(re.findall(r"key=(\S+)", r.stdout))
         known = set(re.findall(r"KNOWN-FINDING: property=\S+ (\S+)", r.stdout))
